@@ -129,6 +129,12 @@ structure Built where
   body : Bytes
 deriving Repr, DecidableEq
 
+/-- `'content-type' in headers and headers['content-type'].startswith('multipart/form-data')` -/
+def multipart (s : Spec) : Bool :=
+  match getKey (lit "content-type") s.headers with
+  | some v => startsWith (lit "multipart/form-data") v
+  | none => false
+
 def buildParts (s : Spec) : Except Exn Built :=
   let method := upper s.method
   let p1 := stripUnsafe (if s.path.isEmpty then [47] else s.path)
@@ -138,10 +144,7 @@ def buildParts (s : Spec) : Except Exn Built :=
   let start := method ++ [32] ++ target ++ [32] ++ Gen.requestVersion
   let hostL := if hasKey (lit "host") s.headers then [] else [packHeader (lit "Host") s.host]
   let accL := if hasKey (lit "accept-encoding") s.headers then [] else [packHeader (lit "Accept-Encoding") Gen.acceptEncoding]
-  let multipart := match getKey (lit "content-type") s.headers with
-    | some v => startsWith (lit "multipart/form-data") v
-    | none => false
-  if method != lit "GET" && s.bkind == 2 && multipart then .error .unmodelled else
+  if method != lit "GET" && s.bkind == 2 && multipart s then .error .unmodelled else
   let bh : Bytes × Headers :=
     if method == lit "GET" then ([], s.headers)
     else if s.bkind == 1 then (s.raw, setKey (lit "content-type") Gen.jsonContentType s.headers)
